@@ -10,6 +10,7 @@ import (
 	"os"
 	"os/exec"
 	"path/filepath"
+	"sort"
 	"strings"
 	"sync"
 	"time"
@@ -341,6 +342,79 @@ func mixedKindSelections(rng *rand.Rand, sample int) []refScenario {
 	return out
 }
 
+// prefixCutSelections: every cut of a few concrete reference names as PREFIX of one --include / --exclude option,
+// also the cuts inside the first component ("r", "re", "ref": they match nothing) and "refs", "refs/" (everything).
+func prefixCutSelections() []refScenario {
+	refs := conflictFree([]string{"refs/heads/topic", "refs/heads/topic/sub", "refs/heads/topical", "refs/heads/to", "refs/tags/v1.0", "refs/tags/v1.0.1",
+		"refs/tags/v1", "refs/remotes/o/m", "refs/re/x", "refs/re/xy", "refs/ref/z", "refs/r/q"})
+	cuts := map[string]bool{}
+	for _, full := range []string{"refs/heads/topic", "refs/tags/v1.0", "refs/remotes/", "refs/re/x"} {
+		for i := 1; i <= len(full); i++ {
+			cuts[full[:i]] = true
+		}
+	}
+	var keys []string
+	for k := range cuts {
+		keys = append(keys, k)
+	}
+	sort.Strings(keys)
+	var out []refScenario
+	n := 0
+	for _, k := range keys {
+		for _, pol := range []string{"include", "exclude"} {
+			n++
+			out = append(out, refScenario{ID: fmt.Sprintf("pc%d", n), Class: "prefix-cuts", Refs: refs, Opts: []refOpt{{Pol: pol, Kind: "prefix", Pat: k}}})
+		}
+	}
+	return out
+}
+
+// repeatedEntryScenarios: one reference group whose gitconfig repeats an entry (same key, same value) after an
+// entry of the opposite effect, in one scope and spread over two: git lists them in order, and the order decides.
+func repeatedEntryScenarios() []refScenario {
+	refs := conflictFree([]string{"refs/heads/main", "refs/heads/foo", "refs/heads/foo2", "refs/tags/v1", "refs/tags/v2", "refs/misc/m"})
+	seqs := [][][2]string{
+		{{"include", "refs/heads"}, {"exclude", "refs/heads/foo"}, {"include", "refs/heads"}},
+		{{"include", "refs"}, {"exclude", "refs/tags"}, {"include", "refs/tags/v1"}, {"exclude", "refs/tags"}},
+		{{"exclude", "refs/heads/foo"}, {"include", "refs/heads/foo"}, {"exclude", "refs/heads/foo"}},
+		{{"includeregexp", "RE1"}, {"excluderegexp", "RE2"}, {"includeregexp", "RE1"}},
+		{{"include", "refs/heads"}, {"include", "refs/heads"}, {"exclude", "refs/heads/foo"}},
+		{{"include", "refs/tags"}, {"exclude", "refs/tags"}, {"include", "refs/tags"}, {"exclude", "refs/tags/v2"}, {"include", "refs/tags"}},
+	}
+	re1 := reEntry{Re: reSeq(reLit("refs/heads/"), reStar(reAny()))}
+	re1.Pat = reRender(re1.Re, 0)
+	re2 := reEntry{Re: reSeq(reLit("refs/heads/foo"), reStar(reAny()))}
+	re2.Pat = reRender(re2.Re, 0)
+	var out []refScenario
+	n := 0
+	for _, sq := range seqs {
+		for _, split := range []int{0, 1, 2} { // 0: all local; k: the first k entries global, the rest local
+			n++
+			sc := refScenario{ID: fmt.Sprintf("rep%d", n), Class: "repeated-entries", Refs: refs}
+			for i, r := range sq {
+				switch r[1] {
+				case "RE1":
+					r[1] = re1.Pat
+					sc.Res = append(sc.Res, re1)
+				case "RE2":
+					r[1] = re2.Pat
+					sc.Res = append(sc.Res, re2)
+				}
+				scope := "local"
+				if i < split {
+					scope = "global"
+				}
+				sc.Config = append(sc.Config, cfgEntry{Scope: scope, Section: "refgroup", Sub: "g", Key: r[0], Value: sp(r[1])})
+			}
+			if n%2 == 0 {
+				sc.Opts = []refOpt{{Pol: "include", Kind: "group", Pat: "g"}}
+			}
+			out = append(out, sc)
+		}
+	}
+	return out
+}
+
 // prefixSymbolScenarios: reference groups whose symbols are prefixes of one another AS STRINGS without being
 // ancestors (rel / release, a.b / a.bc, o / other-like, tags / tags-old), in both configuration orders, with the
 // shorter-named group empty, sparse or as full as the longer-named one.
@@ -506,11 +580,13 @@ func checkC06(c *Ctx) {
 		scs = append(scs, systematicSelections(rng, 3, 250)...)
 		scs = append(scs, builtinBoundaryScenarios()...)
 		scs = append(scs, mixedKindSelections(rng, 250)...)
+		scs = append(scs, prefixCutSelections()...)
 		scs = append(scs, forestScenarios(rng, 15)...)
 	} else {
 		scs = append(scs, systematicSelections(rng, 3, 100000)...)
 		scs = append(scs, builtinBoundaryScenarios()...)
 		scs = append(scs, mixedKindSelections(rng, 0)...)
+		scs = append(scs, prefixCutSelections()...)
 		for _, sc := range systematicSelections(rng, 4, 3000) {
 			sc.ID = "z" + sc.ID // the two systematic families number their scenarios independently
 			scs = append(scs, sc)
